@@ -27,34 +27,38 @@ def jumpBack (stmts : List Node) (index : Int) (op1 : Nat) : R (List Node) := do
   let startIndex := index - op1
   let body := stmts.filter fun s => s.pos ≥ startIndex
   let rest ← pyRemoveAll stmts body
-  let ro := Node.repeat_ startIndex index (.leaf .const (.s (S "TRUE")) startIndex) body (S "while") .none (.s []) []
+  let ro := Node.repeat_ startIndex index (.leaf .const (.s (S "TRUE")) startIndex) body (S "while") .none (.s []) [] .none
   pure (rest ++ [.stmt index ro])
 
 /-! ### WindowTellEndOpcode.process -/
 
-/-- split at the last statement whose code is a WindowTellOperation: (before, tell statement, after) -/
+/-- is the statement a tell block that has not been closed yet? -/
+def isOpenTell : Node → Bool
+  | .stmt _ (.tell _ _ _ closed) => !closed
+  | _ => false
+
+/-- split at the last statement whose code is a WindowTellOperation that is still open: (before, tell statement, after) -/
 def splitLastTell : List Node → Option (List Node × Node × List Node)
   | [] => none
   | x :: r =>
     match splitLastTell r with
     | some (b, t, a) => some (x :: b, t, a)
-    | none =>
-      match x with
-      | .stmt _ (.tell ..) => some ([], x, r)
-      | _ => none
+    | none => if isOpenTell x then some ([], x, r) else none
 
-def tellEnd (stmts : List Node) : R (List Node) := do
+/-- `WindowTellEndOpcode.process`: the new statement list and whether a tell block is still open afterwards
+    (`context.tell_object is not None`) -/
+def tellEnd (stmts : List Node) : R (List Node × Bool) := do
   -- every element must be a Statement (`st.code`)
   let _ ← stmts.mapM stmtPos?
-  match splitLastTell stmts with
-  | none =>
-    -- no tell found: `statements` is the whole (reversed) list and every statement is removed
-    pyRemoveAll stmts stmts.reverse
-  | some (before, .stmt tp (.tell p operand inner), after) =>
-    let moved := inner ++ after
-    let stmts' := before ++ [.stmt tp (.tell p operand moved)] ++ after
-    pyRemoveAll stmts' moved
-  | some _ => .error .other
+  let stmts' ← match splitLastTell stmts with
+    | none =>
+      -- no open tell found: `statements` is the whole (reversed) list and every statement is removed
+      pyRemoveAll stmts stmts.reverse
+    | some (before, .stmt tp (.tell p operand inner _), after) =>
+      let moved := inner ++ after
+      pyRemoveAll (before ++ [.stmt tp (.tell p operand moved true)] ++ after) moved
+    | some _ => .error .other
+  pure (stmts', stmts'.any isOpenTell)
 
 /-! ### break_detect_in_statements -/
 
@@ -99,7 +103,7 @@ theorem breakDetect_length (stmts : List Node) (roEnd : Option Int) (l : List No
 -- nesting depth of repeat bodies in a statement list (the recursion `condition_detect` makes through `ro.statements_list`)
 mutual
   def cdDepth : Node → Nat
-    | .stmt _ (.repeat_ _ _ _ body _ _ _ _) => 1 + cdDepthL body
+    | .stmt _ (.repeat_ _ _ _ body _ _ _ _ _) => 1 + cdDepthL body
     | _ => 0
   def cdDepthL : List Node → Nat
     | [] => 0
@@ -187,9 +191,9 @@ mutual
       | 0 => if stmts.any isRepeatStmt then (.error .other : R (List Node)) else pure stmts
       | d' + 1 => stmts.mapM fun st =>
           match st with
-          | .stmt p (.repeat_ rp re c body t s v sg) => do
+          | .stmt p (.repeat_ rp re c body t s v sg vr) => do
             let body' ← condDetectD d' body (some re)
-            pure (.stmt p (.repeat_ rp re c body' t s v sg))
+            pure (.stmt p (.repeat_ rp re c body' t s v sg vr))
           | x => pure x
     -- first loop, part 2: which jz operations are handled at this level
     let sc ← stmts1.foldlM (scanStep roEnd) {}
@@ -295,8 +299,9 @@ structure Ro where
   start : Node
   varname : Name
   sign : Str
+  loopVar : Node
 
-def Ro.toNode (r : Ro) : Node := .repeat_ r.pos r.endPos r.cond r.stmts r.type r.start r.varname r.sign
+def Ro.toNode (r : Ro) : Node := .repeat_ r.pos r.endPos r.cond r.stmts r.type r.start r.varname r.sign r.loopVar
 
 /-- `is_repeat_while(ro)` together with the rewrite that follows it -/
 def repeatWhile (r : Ro) : R Ro :=
@@ -351,7 +356,7 @@ def applyRepeatWith (r : Ro) (prev : Node) : R Ro :=
     let sign : Str := match increment with
       | .leaf .const n _ => if n == Name.s (S "-1") then S "-" else S "+"
       | _ => S "+"
-    pure { r with type := S "for", varname := varname, start := pright, sign := sign, stmts := r.stmts.dropLast }
+    pure { r with type := S "for", varname := varname, loopVar := pleft, start := pright, sign := sign, stmts := r.stmts.dropLast }
   | _, _ => .error .other
 
 /-- `x.operands` -/
@@ -362,7 +367,7 @@ def Node.operands : Node → R (List Node)
 /-- `is_repeat_with_in_list(ro)` -/
 def isRepeatWithIn (r : Ro) : R Bool :=
   match r.cond with
-  | .binary _ _ (.leaf .const index _) (.callFn cname _ cpar _ _ _) =>
+  | .binary _ _ (.leaf .const index _) (.callFn cname _ cpar _ _ _ _) =>
     if index ≠ Name.s (S "1") ∨ cname ≠ Name.s (S "count") then .ok false else
     match r.stmts with
     | [] => .ok false
@@ -371,7 +376,7 @@ def isRepeatWithIn (r : Ro) : R Bool :=
       | .stmt _ (.binary fop _ _ fright) =>
         if fop ≠ S "assign" then .ok false else
         match fright with
-        | .callFn aname _ apar _ _ _ =>
+        | .callFn aname _ apar _ _ _ _ =>
           if aname ≠ Name.s (S "getAt") then .ok false else do
             let cops ← cpar.operands
             let aops ← apar.operands
@@ -388,11 +393,11 @@ def isRepeatWithIn (r : Ro) : R Bool :=
 
 def applyRepeatWithIn (r : Ro) : R Ro :=
   match r.stmts with
-  | (.stmt _ (.binary _ _ fleft (.callFn _ _ apar _ _ _))) :: rest => do
+  | (.stmt _ (.binary _ _ fleft (.callFn _ _ apar _ _ _ _))) :: rest => do
     let varname ← fleft.name
     let aops ← apar.operands
     let start ← pyGet aops 1
-    pure { r with type := S "for_in", varname := varname, start := start, stmts := rest }
+    pure { r with type := S "for_in", varname := varname, loopVar := fleft, start := start, stmts := rest }
   | _ => .error .other
 
 /-- the three recognisers in sequence; returns the rewritten loop and whether the previous statement is to be removed -/
@@ -422,8 +427,8 @@ mutual
     | [] => .ok ([], [])
     | st :: rest =>
       match st with
-      | .stmt p (.repeat_ rp re c body t s v sg) => do
-        let (r, rm) ← rewriteRepeat { pos := rp, endPos := re, cond := c, stmts := body, type := t, start := s, varname := v, sign := sg } prev
+      | .stmt p (.repeat_ rp re c body t s v sg vr) => do
+        let (r, rm) ← rewriteRepeat { pos := rp, endPos := re, cond := c, stmts := body, type := t, start := s, varname := v, sign := sg, loopVar := vr } prev
         if h : weightList r.stmts ≤ weightList body then do
           let body' ← loopDetect r.stmts
           let st' := Node.stmt p ({ r with stmts := body' } : Ro).toNode
